@@ -19,7 +19,51 @@ const STUB: [&str; 4] = [
 ];
 
 pub fn all() -> Vec<Property> {
-    vec![c01(), c02(), c07(), c08(), c09(), c10(), c12()]
+    vec![c01(), c02(), c07(), c08(), c09(), c10(), c11(), c12(), c13()]
+}
+
+fn c13() -> Property {
+    Property {
+        id: "C13",
+        level: "exploration",
+        variants: vec![Variant {
+            name: "pair-lifecycle-sequences",
+            weight: 1,
+            make: || Box::pin(scen::life::run_c13()),
+            max_steps: 3_000_000,
+            note: "real client <-> real listener, seeded begin/attach/send/detach/close/drop/end sequences",
+        }],
+        quick_runs: 5_000,
+        thorough_runs: 300_000,
+        rule: "one run = 1-3 sessions, each with 1-4 link lifetimes (sender or receiver, 0-4 messages, torn down by close, detach, close_with_error, drop of the handle, or by the peer closing first; names re-used after detach; duplicate-name attempts) and a session teardown (end, end_with_error, drop), all concurrent, under seeded configuration, network behaviour and schedule; every run is non-trivial; distinct = distinct event-log hash",
+        assumptions: vec![
+            "configurations of C01's circular-wait finding are excluded here (connection buffer raised)",
+        ],
+        real_components: REAL.to_vec(),
+        stub_components: STUB.to_vec(),
+        expected_probes: vec!["duplicate-name-attempted", "detach-error-delivered"],
+    }
+}
+
+fn c11() -> Property {
+    Property {
+        id: "C11",
+        level: "exploration",
+        variants: vec![Variant {
+            name: "pair-lifecycle-sequences",
+            weight: 1,
+            make: || Box::pin(scen::life::run_c11()),
+            max_steps: 3_000_000,
+            note: "real client <-> real listener, seeded begin/attach/send/detach/close/drop/end sequences",
+        }],
+        quick_runs: 5_000,
+        thorough_runs: 200_000,
+        rule: "as C13's pair workload (sessions x link lifetimes x teardown kinds, names re-used after detach, duplicate names, concurrent attaches, single- and multi-frame deliveries produced by both splitting layers), judged on identifiers and routing; every run is non-trivial; distinct = distinct event-log hash",
+        assumptions: vec!["configurations of C01's circular-wait finding are excluded here (connection buffer raised)"],
+        real_components: REAL.to_vec(),
+        stub_components: STUB.to_vec(),
+        expected_probes: vec!["duplicate-name-attempted"],
+    }
 }
 
 fn c12() -> Property {
